@@ -66,21 +66,43 @@ def make_node(n):
 
 
 def build_set(spec):
+    """Internal aliasing (optional keys of a caption spec):
+         "same_as": k        the k-th Caption OBJECT built so far is listed again (e.g. one caption under two languages)
+         "style_of": k       the caption's style dict IS the style dict of the k-th caption built so far
+         "layout_of": k      the caption's layout_info IS the Layout object of the k-th caption built so far
+         "node_of": k        the caption's first node IS the first node object of the k-th caption built so far"""
     d = {}
+    built = []
     for lg in spec["langs"]:
         caps = []
         for c in lg["caps"]:
+            if c.get("same_as") is not None and built:
+                caps.append(built[c["same_as"] % len(built)])
+                continue
             nodes = [make_node(n) for n in c["nodes"]]
             kw = {}
             if c.get("style") is not None:
                 kw["style"] = dict(c["style"])
             if c.get("layout") is not None:
                 kw["layout_info"] = make_layout(c["layout"])
-            caps.append(Caption(c["start"], c["end"], nodes, **kw))
+            if built:
+                if c.get("style_of") is not None:
+                    kw["style"] = built[c["style_of"] % len(built)].style
+                if c.get("layout_of") is not None:
+                    kw["layout_info"] = built[c["layout_of"] % len(built)].layout_info
+                if c.get("node_of") is not None:
+                    nodes[0] = built[c["node_of"] % len(built)].nodes[0]
+            cap = Caption(c["start"], c["end"], nodes, **kw)
+            built.append(cap)
+            caps.append(cap)
         d[lg["lang"]] = CaptionList(caps, layout_info=make_layout(lg.get("layout")))
     kw = {}
     if spec.get("styles") is not None:
         kw["styles"] = {sel: dict(rules) for sel, rules in spec["styles"]}
+        if spec.get("styles_alias") and built and kw["styles"]:
+            # a set-level rules dict IS a caption's style dict
+            sel = sorted(kw["styles"])[0]
+            kw["styles"][sel] = built[0].style
     if spec.get("layout") is not None:
         kw["layout_info"] = make_layout(spec["layout"])
     return CaptionSet(d, **kw)
